@@ -184,7 +184,7 @@ def theorem_check(pid: str) -> dict:
         if b.startswith("Closed"):
             okcount += 1
             continue
-        names_ax = re.findall(r"^([A-Za-z_][A-Za-z0-9_.']*)\s*:", b, flags=re.M)
+        names_ax = re.findall(r"^([A-Za-z_][A-Za-z0-9_.']*)\s*:", b[len("Axioms:"):], flags=re.M)
         axioms.update(names_ax)
         if all(a in ALLOWED_AXIOMS for a in names_ax):
             okcount += 1
